@@ -542,6 +542,19 @@ async fn run(case: &Case, ctx: &mut Ctx) -> Option<Violation> {
                     if !db2.is_resident(&fresh) {
                         return Err(("unusable_after_recovery".to_string(), "a key marked and saved after recovery is not resident after the next load".to_string()));
                     }
+                    // ... and the file written by that further save holds the recovered state plus the fresh key, nothing
+                    // else: what an interrupted save left lying around (a longer temp file, say) must not leak into it
+                    let mut scan2 = db2.scan_keys();
+                    scan2.sort_unstable();
+                    let mut want2 = want.clone();
+                    want2.push(fresh);
+                    want2.sort_unstable();
+                    want2.dedup();
+                    if scan2 != want2 {
+                        let ghosts = scan2.iter().filter(|k| !want2.contains(k)).count();
+                        let lost = want2.iter().filter(|k| !scan2.contains(k)).count();
+                        return Err(("mixed_state_after_further_save".to_string(), format!("a further save + load on the recovered db (S_{}) yields {} keys, expected {}: {ghosts} keys that were never part of that state, {lost} missing", if is_new { "new" } else { "old" }, scan2.len(), want2.len())));
+                    }
                     Ok(is_new)
                 })
             });
